@@ -64,7 +64,10 @@ def run(tier, seed):
     # of Const write exactly the reported type, tag and fields (per-class encode/decode lemmas shared with C05)
     codec_files = [os.path.join(VERIF, "contracts", f) for f in ("node_port.py", "tys.py", "codec.py", "ops.py")]
     codec_lemmas = ["code_lemma:rt_val_Sum", "code_lemma:rt_val_Extension", "code_lemma:rt_op_Const", "code_lemma:rt_op_LoadConst"]
-    standard_flow(res, FILES, targets(), None, bounded_modules=[("bounded.c14", 180, 900)], more=[(codec_files, codec_lemmas)])
+    standard_flow(res, FILES, targets(), None, bounded_modules=[("bounded.c14", 180, 900)], more=[(codec_files, codec_lemmas),
+                        # a function-valued constant has the signature of its body; the LoadConstant built for a constant node has the reported type
+                        ([os.path.join(VERIF, "contracts", f) for f in ("node_port.py", "tys.py", "ops.py", "utils.py", "base.py", "val_function.py")], ["hugr.val.Function.type_"]),
+                        ([os.path.join(VERIF, "contracts", f) for f in ("node_port.py", "tys.py", "ops.py", "utils.py", "base.py", "load.py")], ["hugr.build.dfg.DfBase.load#node"])])
     for g in ground():
         res.ground.append(g)
         if not g["ok"]:
@@ -77,5 +80,5 @@ def run(tier, seed):
     res.explanation = ("Proved: val.Sum.type_, every helper constructor (Tuple/Some/None_/Left/Right/UnitSum/bool_value) builds the stated sum type with the right tag and is well typed "
                        "(field types exactly the tagged variant row), Extension.type_, IntVal/FloatVal/StringVal/ArrayVal/ListVal/StaticArrayVal report the matching standard type, name their "
                        "defining extension and embed elements as complete values with the element type; Const/LoadConst agreement (shared with C06). "
-                       "val.Function.type_ and DfBase.load are bounded only, hence category other.")
+                       "val.Function.type_ (signature of the body's root operation) and DfBase.load for a constant node (the LoadConstant carries the reported type and is linked to the constant's static port; plain builder calls as trusted recorders) are proved as well; DfBase.load of a bare value (which first adds the constant node), the encoders of nested function values and the whole value expressions are covered by the bounded run, hence category other.")
     return res.finish()
